@@ -14,10 +14,11 @@ RULE = ('Hypothesis: programs from the lazy alphabet (map, lazy filter, every sl
         'zip, key_zip, batch, unbatch, batch_map, items, tile, lazy cache, catch, copy, local shuffle, 1-worker '
         'prefetch) over logging raw sources, with an instrumented function at every stage; observation after '
         'construction, after the first k results of an iteration (k drawn in 0..len+1), after ds[i] and after '
-        'ds[key]. Oracle: construction logs nothing; per stage (and per source) the sequence of arguments seen is a '
+        'ds[key], and after refused accesses (absent key, index outside the range). Oracle: construction logs nothing; per stage (and per source) the sequence of arguments seen is a '
         'subsequence of what a generator-based lazy reference interpreter evaluates for the same demand (with the '
         'look-ahead the statement allows: one batch, the shuffle buffer, buffer_size+2 for prefetch), which bounds '
-        'multiplicity and order. Non-trivial: 0 < k < len, depth >= 2 and >= 2 instrumented stages, or an index/key '
+        'multiplicity and order. Plus dynamic bucket batching (C17 parameter space) with a counting sort_key and a counting '
+        'stage below: each sees an example at most once, the stage below in source order. Non-trivial: 0 < k < len, depth >= 2 and >= 2 instrumented stages, or an index/key '
         'access into a program of depth >= 3; distinct by case JSON.')
 ASSUMPTIONS = [
     'only "subsequence of the reference demand" is required per stage: fewer evaluations are always fine and the '
@@ -25,6 +26,9 @@ ASSUMPTIONS = [
     'stages above a buffer-local shuffle see examples in random order: for them only the number of evaluations is '
     'bounded',
     'the lazy reference does not model cache hits (it demands at least as much as a caching pipeline)',
+    'a refused access (key that the selection does not contain, index outside the range) has no result and must '
+    'evaluate nothing; asserted only where membership is structural: no stage that selects by value (filter, catch) '
+    'and no drop_last batching, which reads the incomplete last batch before it refuses its index',
 ]
 N = {'quick': 2500, 'thorough': 10000}
 LAZY = {'map', 'filter_lazy', 'slice', 'batch', 'unbatch', 'items', 'tile', 'cache_lazy', 'catch', 'copy',
@@ -169,6 +173,14 @@ def check(case):
             if hasattr(it, 'close'):
                 it.close()
             list(itertools.islice(ref.iter(node), k))
+        elif mode in ('absent-key', 'outside-index'):
+            # a refused access has no result: nothing may be evaluated for it
+            try:
+                v = ds[case['arg']]
+            except Exception:
+                pass
+            else:
+                raise Violation(f'{mode}-answered', f'{desc}\nreturned {v!r}')
         elif mode == 'index':
             ds[case['arg']]
             i = case['arg']
@@ -186,9 +198,58 @@ def check(case):
         raise Violation(v.sig, f'{desc}\n{v.detail}')
 
 
+def check_bucket(case):
+    """Dynamic bucket batching with a callable sort_key: the stage's own user function (sort_key) and the stage below
+    see every example at most once, the stage below in source order; nothing runs at construction."""
+    import lazy_dataset
+    seq, p = case['lengths'], case['params']
+    desc = f'dynamic buckets: lengths={seq} params={p} drop={case["drop"]} batches consumed={case.get("k")}'
+    below, sort_calls = [], []
+
+    def spy(ex):
+        below.append(ex['id'])
+        return ex
+
+    def sort_key(ex):
+        sort_calls.append(ex['id'])
+        return ex['len']
+
+    ds = lazy_dataset.new([{'id': i, 'len': n} for i, n in enumerate(seq)]).map(spy)
+    ds = ds.batch_dynamic_time_series_bucket(
+        batch_size=p['batch_size'], len_key='len', max_padding_rate=p['rate'], max_total_size=p['mts'],
+        expiration=p['expiration'], max_buffered_examples=p['mbe'], drop_incomplete=case['drop'],
+        sort_key=sort_key, reverse_sort=p.get('reverse', False))
+    if below or sort_calls:
+        raise Violation('construction-evaluates|bucket', f'{desc}\nconstruction evaluated {below} / {sort_calls}')
+    it = iter(ds)
+    out = []
+    k = case.get('k')
+    while k is None or len(out) < k:
+        try:
+            out.append([ex['id'] for ex in next(it)])
+        except StopIteration:
+            break
+    it.close()
+    if below != sorted(set(below)):
+        raise Violation('prefix-evaluated-twice|bucket', f'{desc}\nthe stage below the buckets saw {below}')
+    twice = sorted({i for i in sort_calls if sort_calls.count(i) > 1})
+    if twice:
+        raise Violation('prefix-evaluated-twice|bucket-sort-key',
+                        f'{desc}\nsort_key was applied more than once to the examples {twice}: calls {sort_calls}')
+    emitted = {i for b in out for i in b}
+    extra = sorted(set(sort_calls) - emitted) if not case['drop'] else []
+    if extra:
+        raise Violation('prefix-evaluated-without-demand|bucket-sort-key',
+                        f'{desc}\nsort_key was applied to {extra}, which are in none of the batches handed out {out}')
+    return len(out), bool(twice or sort_calls)
+
+
 def replay(case):
     progcheck.setup_process()
-    check(case)
+    if 'lengths' in case:
+        check_bucket(case)
+    else:
+        check(case)
 
 
 @st.composite
@@ -217,8 +278,22 @@ def st_case(draw):
         modes.append('key')
     if m.n >= 1 and not m.has_raise:
         modes.append('cycle')
+    absent = []
+    selects_by_value = any(n['op'] in ('filter', 'catch', 'boom', 'frag', 'unbatch') for n in progs.walk(node))
+    if m.cap_str == 'req' and m.keys is not None and not m.taint and not selects_by_value:
+        below = [k for n in progs.walk(node) if n['op'] == 'dict' for k in n['keys']]
+        absent = sorted(set(k for k in below + list(progs.ABSENT_KEYS) if k not in set(m.keys)))
+        if absent:
+            modes.append('absent-key')
+    if m.indexable and m.sized and not m.int_taint and not selects_by_value and not any(
+            n['op'] == 'batch' and n['drop_last'] for n in progs.walk(node)):
+        modes.append('outside-index')
     mode = draw(st.sampled_from(modes))
-    if mode == 'cycle':
+    if mode == 'absent-key':
+        arg = draw(st.sampled_from(absent))
+    elif mode == 'outside-index':
+        arg = draw(st.sampled_from([m.n, m.n + 1, -m.n - 1, -m.n - 2, 10 ** 6]))
+    elif mode == 'cycle':
         arg = draw(st.integers(0, m.n))  # within the first pass: same demand as a plain prefix
     elif mode == 'prefix':
         arg = draw(st.integers(0, m.n + 1))
@@ -240,6 +315,8 @@ def run_shard(tier, idx, nshards, rec, known):
                                                                         'nonemap'))
         if case['mode'] == 'eager':
             nt = m.n >= 2 and instrumented >= 1
+        elif case['mode'] in ('absent-key', 'outside-index'):
+            nt = progs.depth(node) >= 2 and instrumented >= 1
         elif case['mode'] in ('prefix', 'cycle'):
             nt = 0 < case['arg'] < m.n and progs.depth(node) >= 2 and instrumented >= 2
         else:
@@ -248,4 +325,22 @@ def run_shard(tier, idx, nshards, rec, known):
         rec.case({'program': progs.show(node), 'mode': case['mode'], 'arg': case['arg'], 'ast': node,
                   'eager': case.get('eager')}, nt, cls,
                  size=progs.size(node))
-    return [drive(one, st_case(), N[tier], rec, known, seed() * 1000 + idx)]
+    o1 = drive(one, st_case(), N[tier], rec, known, seed() * 1000 + idx)
+    if o1.violation:
+        return [o1]
+
+    from . import c17
+
+    @st.composite
+    def st_bucket(draw):
+        c = draw(c17.st_case())
+        c.pop('word', None)
+        c['drop'] = draw(st.booleans())
+        c['k'] = draw(st.sampled_from([None, None, 0, 1, 2, 3]))
+        return c
+
+    def bucket(case):
+        nb, sorted_any = check_bucket(case)
+        rec.case(dict(case, part='dynamic-buckets'), nb >= 2 and sorted_any and len(case['lengths']) >= 4,
+                 {'dynamic-buckets', 'drop' if case['drop'] else 'keep'}, size=len(case['lengths']))
+    return [o1, drive(bucket, st_bucket(), N[tier] // 5, rec, known, seed() * 1000 + 500 + idx)]
